@@ -1,0 +1,77 @@
+//! Verification hooks (compiled only with `--cfg rustpython_parser_verif`): thread-local probes that
+//! the harness in /verif reads. They never influence lexing or parsing.
+//!
+//! * H1 `lexer_boundary`: what the lexer holds at a physical line boundary.
+//! * H2 `step`: deterministic step counter (lexer characters, soft-keyword look-ahead, string
+//!   sub-parser characters, parser reductions).
+//! * H3 `reduce`: set of grammar productions reduced.
+use std::cell::{Cell, RefCell};
+
+/// (location, at_begin_of_line, nesting, indentation stack as (tabs, spaces))
+pub type LexerBoundary = (u32, bool, usize, Vec<(u32, u32)>);
+
+thread_local! {
+    static STEPS: Cell<u64> = Cell::new(0);
+    static REDUCED: RefCell<Vec<u64>> = RefCell::new(vec![0; 16]);
+    static BOUNDARIES: RefCell<Vec<LexerBoundary>> = RefCell::new(Vec::new());
+}
+
+#[inline]
+pub fn step() {
+    STEPS.with(|s| s.set(s.get() + 1));
+}
+
+pub fn steps() -> u64 {
+    STEPS.with(|s| s.get())
+}
+
+pub fn reset_steps() {
+    STEPS.with(|s| s.set(0));
+}
+
+#[inline]
+pub fn reduce(action: i16) {
+    step();
+    let action = action as usize;
+    REDUCED.with(|r| {
+        let mut r = r.borrow_mut();
+        if action / 64 >= r.len() {
+            r.resize(action / 64 + 1, 0);
+        }
+        r[action / 64] |= 1 << (action % 64);
+    });
+}
+
+/// The productions reduced since the last call (ascending), and reset.
+pub fn take_reductions() -> Vec<u16> {
+    REDUCED.with(|r| {
+        let mut r = r.borrow_mut();
+        let mut out = Vec::new();
+        for (word_index, word) in r.iter_mut().enumerate() {
+            for bit in 0..64 {
+                if *word & (1 << bit) != 0 {
+                    out.push((word_index * 64 + bit) as u16);
+                }
+            }
+            *word = 0;
+        }
+        out
+    })
+}
+
+pub fn lexer_boundary(
+    location: u32,
+    at_begin_of_line: bool,
+    nesting: usize,
+    indents: Vec<(u32, u32)>,
+) {
+    BOUNDARIES.with(|b| {
+        b.borrow_mut()
+            .push((location, at_begin_of_line, nesting, indents))
+    });
+}
+
+/// The line-boundary records since the last call, and reset.
+pub fn take_lexer_boundaries() -> Vec<LexerBoundary> {
+    BOUNDARIES.with(|b| std::mem::take(&mut *b.borrow_mut()))
+}
